@@ -52,4 +52,5 @@ void vf_kill (const void *p);      /* object memory is reclaimed: any later acce
 const char *vf_name_of (const void *p);   /* object name or NULL */
 int vf_next_index (int kind);
 void *vf_arena_alloc (size_t n);   /* harness-side allocation from the same arena */
+uint32_t vf_counter_peek (const void *c);
 #endif
